@@ -155,7 +155,6 @@ _H_VERDICT = {
         bounds="n=1, m=1; scalings d=2, e=1/2, c=4, tau=2 (concrete); data and iterate symbolic small integers", oracle="every termination quantity (costs, residuals, gaps, ktratio) is bit-identical when computed from the internally scaled presentation and from the user's data with the unscaled iterate; cost formulas q'x+x'Px/2, -b'z-x'Px/2"),
     "c01_scale_invariance_m1_b": dict(nofloat=True, stubs=True, tier="thorough", timeout=9000, mem_gb=28, unit="same", inst="same", bounds="n=1, m=1; d=1/4, e=4, c=1/2, tau=1", oracle="same"),
     "c01_scale_invariance_m1_c": dict(nofloat=True, stubs=True, tier="thorough", timeout=7200, mem_gb=28, unit="same", inst="same", bounds="n=1, m=1; d=4, e=2, c=1/4, tau=4", oracle="same"),
-    "c01_scale_invariance_m2_a": dict(nofloat=True, stubs=True, tier="thorough", timeout=5400, mem_gb=32, unit="same", inst="same", bounds="n=1, m=2; d=2, e=(1/2, 2), c=4, tau=2", oracle="same"),
     "c01_post_process_fp": dict(timeout=900, unit="DefaultSolution::post_process -> DefaultVariables::unscale", inst="GF(13)",
         bounds="n=m=2, 7 non-infeasible statuses", oracle="returned x,z,s are the unscaled iterate; objectives copied"),
     "c03_solution_post_process": dict(nofloat=True, timeout=900, unit="DefaultSolution::post_process / finalize, SolverStatus::is_infeasible, DefaultVariables::unscale", inst="f64 all bit patterns",
@@ -170,7 +169,7 @@ PROPS["C01"] = {
     "bounds_note": "verdict logic: every f64 bit pattern of every field and tolerance; unscale/post-process: n=m=2",
     "outside": "that the interior-point iteration reaches an iterate satisfying the test; rounding of residual norms; cone membership of the final iterate (see C07/C15); PSD cones; faer backend",
     "assumptions": ["check_termination is entered with status == Unsolved (loop invariant of Solver::solve, decided by the C04 loop harness)"],
-    "harnesses": _pick(["c01_verdict_solved", "c01_unscale", "c01_post_process_fp", "c03_solution_post_process", "c01_scale_invariance_fp_m1", "c01_scale_invariance_fp_m2", "c01_scale_invariance_m1_a", "c01_scale_invariance_m1_b", "c01_scale_invariance_m1_c", "c01_scale_invariance_m2_a"]),
+    "harnesses": _pick(["c01_verdict_solved", "c01_unscale", "c01_post_process_fp", "c03_solution_post_process", "c01_scale_invariance_fp_m1", "c01_scale_invariance_fp_m2", "c01_scale_invariance_m1_a", "c01_scale_invariance_m1_b", "c01_scale_invariance_m1_c"]),
 }
 PROPS["C02"] = {
     "feature": "c02",
@@ -204,7 +203,7 @@ def _c16():
     add("c16_gemv_3x2_nnz3", unit="MatrixVectorMultiply::gemv for CscMatrix and Adjoint (_csc_axpby_N/_T)", inst="GF(13)", bounds="3x2 nnz=3 symbolic pattern, all a,b,x,y", oracle="y = a*A*x + b*y and y = a*A'*x + b*y (dense reference), incl. a,b in {0,1,-1} fast paths")
     add("c16_gemv_2x3_nnz4", unit="same", inst="GF(13)", bounds="2x3 nnz=4", oracle="same", tier="thorough", timeout=2400)
     add("c16_symv_2x2_nnz3", unit="SymMatrixVectorMultiply::symv (_csc_symv_unsafe, unchecked indexing), MatrixMath::quad_form", inst="GF(13)", bounds="2x2 triu nnz=3", oracle="y = a*sym(A)*x + b*y; quad_form = y' sym(A) x; memory safe")
-    add("c16_symv_3x3_nnz4", tier="thorough", timeout=3600, unit="same", inst="GF(13)", bounds="3x3 triu nnz=4 symbolic pattern", oracle="same")
+    add("c16_symv_3x3_nnz4", tier="thorough", timeout=5400, unit="same", inst="GF(13)", bounds="3x3 triu nnz=4 symbolic pattern", oracle="same")
     add("c16_scalings_3x2_nnz3", unit="MatrixMathMut::lscale/rscale/lrscale/scale/negate, MatrixMath::col_sums/row_sums", inst="GF(13)", bounds="3x2 nnz=3 symbolic pattern", oracle="entrywise dense definition; pattern unchanged")
     add("c16_scalings_2x3_nnz4", unit="same", inst="GF(13)", bounds="2x3 nnz=4", oracle="same", tier="thorough", timeout=1800)
     add("c16_norms_3x3_nnz4", nofloat=True, unit="MatrixMath::col_norms/col_norms_no_reset/col_norms_sym/row_norms", inst="f64, every non-NaN value", bounds="3x3 nnz=4 symbolic pattern", oracle="max |a_ij| per column / row / symmetric column; no_reset accumulates")
